@@ -37,13 +37,19 @@ def _line_ok(chunk):
 # ---------------------------------------------------------------- WSGI
 
 
+def _cl_text(cl, case):
+    """Content-Length = 1*DIGIT (RFC 9110 8.6): leading zeros are legal spellings of the same length."""
+    z = case.get('cl_zeros') or 0
+    return '0' * z + str(cl)
+
+
 def run_wsgi(case):
     data = case['data']
     cl = case['content_length']
     short = case.get('short') or None
     headers = []
     if cl is not None:
-        headers.append(('Content-Length', str(cl)))
+        headers.append(('Content-Length', _cl_text(cl, case)))
     headers += [tuple(h) for h in case.get('extra_headers') or []]
     inp = wsgi_driver.Input(data, short=short, fail_at=case.get('fail_at'))
     env = wsgi_driver.build_environ('POST', '/', headers=headers, input_obj=inp)
@@ -194,6 +200,8 @@ def classify_wsgi(case):
         labels.append('short_reads')
     if case.get('fail_at'):
         labels.append('transient_server_read_failure')
+    if case.get('cl_zeros'):
+        labels.append('content_length_with_leading_zeros')
     for op in ops:
         labels.append('op:' + op[0])
     return Info(seq or regime in ('cl_shorter', 'cl_longer'), sorted(set(labels)))
@@ -231,6 +239,8 @@ class WsgiEnum(Suite):
                 for n in range(1, max_ops + 1):
                     for h in itertools.product(range(len(W_OPS)), repeat=n):
                         yield {'data': data, 'content_length': cl, 'ops': [W_OPS[i] for i in h]}
+                        if n == 1 and cl is not None:
+                            yield {'data': data, 'content_length': cl, 'ops': [W_OPS[i] for i in h], 'cl_zeros': 2}
 
     def run(self, case):
         run_wsgi(case)
@@ -268,7 +278,8 @@ class WsgiRandom(Suite):
             else:
                 cl = len(body) + extra
             data = body if regime == 'longer' else body + b'PIPELINED\nNEXT'
-            return {'data': data, 'content_length': cl, 'ops': ops, 'short': short}
+            return {'data': data, 'content_length': cl, 'ops': ops, 'short': short,
+                    'cl_zeros': (len(ops) % 3) if (cl is not None and len(body) % 4 == 0) else 0}
         base = st.builds(build, _body, st.sampled_from(['absent', 'exact', 'exact', 'shorter', 'longer']), st.integers(1, 5),
                          st.lists(_wop, min_size=1, max_size=10),
                          st.one_of(st.none(), st.none(), st.lists(st.integers(0, 4), min_size=1, max_size=3)))
@@ -307,7 +318,7 @@ def run_asgi(case):
     preload = case.get('preload', True)
     headers = []
     if cl is not None:
-        headers.append(('Content-Length', str(cl)))
+        headers.append(('Content-Length', _cl_text(cl, case)))
     headers += [tuple(h) for h in case.get('extra_headers') or []]
     scope = asgi_driver.build_scope('POST', '/', headers=headers)
     B = asgi_expected(events, cl)
@@ -539,6 +550,8 @@ class AsgiEnum(Suite):
                 for n in range(1, 4):
                     for h in itertools.product(range(len(A_OPS)), repeat=n):
                         yield {'events': events, 'content_length': cl, 'ops': [A_OPS[i] for i in h], 'preload': True}
+                        if len(h) == 1 and cl is not None:
+                            yield {'events': events, 'content_length': cl, 'ops': [A_OPS[i] for i in h], 'preload': True, 'cl_zeros': 2}
 
     def run(self, case):
         run_asgi(case)
@@ -579,7 +592,7 @@ def _asgi_case(draw):
         else total + draw(st.integers(1, 5))
     ops = _fix_history(draw(st.lists(_aop, min_size=1, max_size=8)))
     return {'events': events, 'content_length': cl, 'ops': ops, 'preload': draw(st.sampled_from([True, True, True, False])),
-            'extra_headers': draw(_extra_headers)}
+            'extra_headers': draw(_extra_headers), 'cl_zeros': draw(st.sampled_from([0, 0, 0, 0, 1, 3])) if cl is not None else 0}
 
 
 class AsgiRandom(Suite):
